@@ -45,6 +45,20 @@ PadF(shsh, r) == PadT(IF shsh = <<>> THEN <<1>> ELSE shsh, r)
 Proj(e, P) == [d \in 1..Len(P) |-> IF P[d] = 1 THEN 0 ELSE e[d]]
 
 (***************************************************************************)
+(* Histories of calls.  A call event is (layout, values): the shape of the *)
+(* shift array is part of it, so the same list of values laid out along    *)
+(* other sample axes ((a,1) / (a,) then (1,a)) is a different call.  The   *)
+(* functions are stateless: every step of a history must satisfy the       *)
+(* per-element clauses on its own layout, whatever was called before.      *)
+(***************************************************************************)
+NoPrev == <<0>>                       \* "no earlier call in this session" (not a shape)
+\* the row-major list of values of S (on padded shape P) laid out on padded shape P2
+Relaid(S, P, P2) ==
+  LET a == ElemSeq(P)
+      b == ElemSeq(P2)
+  IN [m \in Elems(P2) |-> S[a[CHOOSE j \in 1..Len(b) : b[j] = m]]]
+
+(***************************************************************************)
 (* The zero loop                                                           *)
 (*     it = np.nditer(shift, flags=["multi_index"])                        *)
 (*     for a in it:                                                        *)
